@@ -70,6 +70,16 @@ CHECKS = {
   technique='TLA+ specs ParLoop.tla (race freedom and schedule independence of a parallel region, all schedules model-checked by TLC) and TraceSim.tla (the configuration is a variable no step depends on); runs of exact and real-kernel problems through Application.run under many configurations compared state by state by TLC',
   text='TLC explores every schedule of a parallel region (threads, dynamic chunks, per-thread scratch) and checks one writer per location, thread-private scratch and a result that is a function of the data alone. Integer/dyadic-exact problems (free surface, wall, periodic, two fluid arrays) and real-kernel problems with sorted neighbours are run through the Application front end for the product of --nnps x --cache-nnps x OpenMP/threads x --reorder-freq x --sort-gids (sampled in quick, complete in thorough); TLC compares per-step and final bit patterns by particle identity with the reference configuration, and a repetition of the reference run.',
   note='Bit identity is demanded for exact problems under every configuration and for real-kernel problems among runs with --sort-gids and equal re-ordering frequency. The correctness of each component is bound to its own specification under C01-C04, C07, C17; this check binds their composition.'),
+ 'C12': dict(
+  cat='model_checking', design_ref='DESIGN.md section 5 (C12), 4.4',
+  technique='TLA+ spec Schemes.tla (abstraction of a set-up simulation: arrays -> name sets, equations/steppers -> required names through the precomputed-symbol closure; clauses SetUp/Complete/Generated/RunFinite) with SchemesMC.tla model-checked by TLC; every shipped Scheme x option assignment configured for real, abstracted and decided by TLC (TraceSchemes.tla)',
+  text='For every shipped Scheme subclass and every combination of its boolean/enumerated options (plus dims, solids, clean) the real configure / configure_solver / setup_properties / get_equations / get_solver are run, the result is abstracted (array name sets, explicit and symbol-implied requirements of every equation and stepper, taken from the real objects) and TLC decides completeness with witnesses; the real AccelerationEval + SPHCompiler generate the code for all of them and a rotating subset is compiled and run for three steps with a finiteness check. TLC also model-checks the protocol on toy schemes (complete / incomplete / role-mix / stale configure).',
+  note='The symbol table is dumped from the real code and compared with the TLA+ table. Schemes whose constructor cannot be filled automatically are listed in the evidence. Names read only through dst.array in Python-level hooks are covered by the run leg only.'),
+ 'C16': dict(
+  cat='model_checking', design_ref='DESIGN.md section 5 (C16), 4.9',
+  technique='TLA+ spec InletOutlet.tla (1-D abstraction along the normal: property layer over histories; code-shaped mechanism MInlet/MOutlet) model-checked by TLC on several instances; histories of the real InletBase/OutletBase objects (manager and direct mode) decided by TLC (TraceInletOutlet.tla)',
+  text='Particles with identity move along the interface normal by arbitrary integer displacements (several crossing at once, back-flow, bursts); TLC checks that the implementation-shaped updates satisfy exactly-once transfer, exact copies, recycling by one zone length, deletion past the far end, nothing else changing array and the particle-count equation for every history of small instances. Real inlet/outlet objects of all five SimpleInletOutlet families, with normals along every axis and diagonals in 1-3 dimensions, are driven through random histories on a lattice and every update call is decided by TLC.',
+  note='A particle exactly on a plane may go either way; a particle carried past the far end of the outlet in one step may be absorbed or deleted. Lattice units >= 2^-8 (the implementation uses an absolute tolerance of 1e-6). Several fluid arrays and ghost arrays are not judged.'),
 }
 
 NOT_APPLICABLE = {
